@@ -642,6 +642,28 @@ def run_real(spec):
                         seqs = [it[3] for it in got if it[2] == t]
                         if seqs != sorted(seqs):
                             res.violation(f"real-per-sender-order-broken:{spec['spec']}", label)
+            # last words: the worker sends a batch of items and is gone at once, while this side's receiver thread is held up
+            # in a callback of another channel - every item written before the exit is still delivered, then the end
+            hold = gw.newchannel()
+            hold.setcallback(lambda item: time.sleep(0.8))
+            lw = gw.remote_exec("import os\nside = channel.receive()\nside.send('hold the receiver')\n"
+                                "for i in range(200):\n    channel.send(('last words', i))\n" + ("os._exit(0)\n" if run % 2 else ""))
+            lw.send(hold)
+            if run % 2 == 0:
+                time.sleep(0.1)
+                gw.exit()
+            words = []
+            try:
+                while True:
+                    words.append(lw.receive(20))
+            except EOFError:
+                pass
+            except BaseException as e:  # noqa
+                words.append(f"{type(e).__name__}: {e}")
+            res.count("last_words_runs")
+            if words != [("last words", i) for i in range(200)]:
+                res.violation(f"items-written-before-the-peer-was-gone-lost:{spec['spec']}",
+                              f"{label}: {len(words)} of 200 items arrived ({'worker called os._exit' if run % 2 else 'gateway told to exit'} while the receiver thread was busy); tail {short(words[-2:], 120)}")
             res.count("runs")
             res.count("real_runs")
             res.case(core.h64("real", spec["spec"], run, nchan, nthreads, nitems, mode))
